@@ -33,7 +33,7 @@ PROPS = {
                 inv=["Inv_C10"], step=["Step_C10"]),
     "C04": dict(fam=["tandem", "prio", "preempt", "sched", "schedpre", "core1", "schedblock", "preblock"],
                 mc=["tandem", "preempt", "sched", "schedpre", "ppsched", "jsqsched"], inv=["Inv_C04"], step=["Step_C04"]),
-    "C12": dict(fam=["sched", "schedpre", "slot", "slotpre", "slotren", "preblock"], mc=["sched", "schedpre", "slot", "ppsched", "slotpre", "renegesched"], inv=["Inv_C12"], step=["Step_C12"]),
+    "C12": dict(fam=["sched", "schedpre", "slot", "slotpre", "slotren", "preblock", "ppsched"], mc=["sched", "schedpre", "slot", "ppsched", "slotpre", "renegesched"], inv=["Inv_C12"], step=["Step_C12"]),
     "C05": dict(fam=["core1", "tandem", "prio", "preempt", "renege", "cls", "sched", "schedpre", "ccw"],
                 mc=["core1", "tandem", "prio", "preempt", "renege", "sched", "schedpre", "ppsched", "renegesched"], inv=["Inv_C05"], step=["Step_C05"]),
     "C08": dict(fam=["prio", "preempt", "cls", "renege", "ccw", "sched", "slot"], mc=["prio", "preempt", "cls", "ccw", "slot", "ppsched", "slotpre"], inv=[], step=["Step_C08"]),
